@@ -243,10 +243,11 @@ def run(ctx):
          'the remote span context is built from the received trace id, span id and sampling decision, in that order', [setc.loc(setc.d)])
     # handler receives the tracked request's context
     ex = F.inherent('server::InFlightRequest', 'execute')
-    serves = [(b, bb, t) for b in F.with_descendants(ex) for bb, t in b.calls() if callee_is(t, 'server::Serve::serve')]
+    from .common import deep_bodies
+    serves = [(b, bb, t) for b in deep_bodies(F, ex) for bb, t in b.calls() if callee_is(t, 'server::Serve::serve')]
     R.ob('C18.handler', ('InFlightRequest::execute', 'one serve call'), len(serves) == 1, 'execute invokes the handler once', [b.loc(t) for b, _, t in serves] or [ex.loc(ex.d)])
     for b, bb, t in serves:
-        rs = P.root(P.operand(b, t['args'][1], at=bb))
+        rs = P.root(P.operand(b, t['args'][1], at=bb), through_params=True, callers={x.id for x in deep_bodies(F, ex)})   # through a named async fn / helper of execute
         ok = bool(rs) and all(r == ('param', ex.id, 1) and P.fpath(p) == ('request', 'context') for r, p in rs)
         R.ob('C18.handler', ('InFlightRequest::execute', 'handler gets the request\'s context'), ok,
              'the context handed to the handler is the tracked request\'s context, untouched', [b.loc(t)], str([P.describe(r) + str(list(norm_path(p))) for r, p in rs]))
